@@ -42,6 +42,64 @@ def cpuLocalTok : List String → Option ((Region × List (Nat × Nat)) × List 
     some ((⟨o, s⟩, pv), rest)
   | _ => none
 
+/-- `loc:delta:width` -/
+def refTok? (t : String) : Option Ref :=
+  match t.splitOn ":" with
+  | [l, d, w] => do let l ← l.toNat?; let d ← d.toInt?; let w ← w.toInt?; some ⟨l, d, w⟩
+  | _ => none
+
+def allSome {α} : List (Option α) → Option (List α)
+  | [] => some []
+  | none :: _ => none
+  | some a :: rest => (allSome rest).map (a :: ·)
+
+/-- `a<size>` = AllocLocal(size); `i<w>[/loc:delta:width]*[@tag]` = one emitted instruction (w = 1: writes a BP
+view) with its stack operands; the tag only tells the Go side how to rebuild the instruction on replay. -/
+def popTok : List String → Option (POp × List String)
+  | [] => none
+  | t :: ts =>
+    let body := (t.splitOn "@").headD ""
+    match body.toList with
+    | 'a' :: rest => (String.ofList rest).toInt?.map (fun v => (POp.alloc v, ts))
+    | 'i' :: w :: rest =>
+      if w != '0' && w != '1' then none else
+      match (String.ofList rest).splitOn "/" with
+      | "" :: refs => (allSome (refs.map refTok?)).map (fun rs => (POp.instr (w == '1') rs, ts))
+      | _ => none
+    | _ => none
+
+/-- `off size` -/
+def regTok2 : List String → Option (Region × List String)
+  | o :: s :: ts => do let o ← o.toInt?; let s ← s.toInt?; some (⟨o, s⟩, ts)
+  | _ => none
+
+/-- `loc delta width <printed operand text>`: the displacement is read from the text by `parseStackAddr` -/
+def seenTextTok : List String → Option ((Ref × String) × List String)
+  | l :: d :: w :: a :: ts => do
+    let l ← l.toNat?; let d ← d.toInt?; let w ← w.toInt?
+    some ((⟨l, d, w⟩, a), ts)
+  | _ => none
+
+/-- `loc delta width disp` (measured width and displacement) -/
+def seenTok : List String → Option (Seen × List String)
+  | l :: d :: w :: x :: ts => do
+    let l ← l.toNat?; let d ← d.toInt?; let w ← w.toInt?; let x ← x.toInt?
+    some (⟨⟨l, d, w⟩, x⟩, ts)
+  | _ => none
+
+def regionsStr (rs : List Region) : String :=
+  ",".intercalate (rs.map (fun r => s!"[{r.off},{r.off + r.size})"))
+
+/-- First operand that does not sit on the region handed out for its local. -/
+def firstMoved (regions : List Region) (seen : List Seen) : String :=
+  match seen.find? (fun s => !addrOKB regions s) with
+  | none => "-"
+  | some s =>
+    let want := match regions[s.ref.loc]? with
+      | some g => toString (g.off + s.ref.delta)
+      | none => "?"
+    s!"local={s.ref.loc} handed-out-address={want}(SP) observed={s.disp}(SP)"
+
 def handle : Handler
   | "locals" :: nf :: args :: rest => do
     let args ← args.toInt?
@@ -71,8 +129,58 @@ def handle : Handler
           some s!"bad-frame-wraps-int32 declared={frame} assembler-allocates={(asmTextFrame text.toList).getD 0}"
         else some "ok"
     | _ => none
+  /- `final nf args nops ops…`: frame, TEXT size and the displacement of every stack operand of the COMPILED function,
+     in program order; `=`: every SP-relative memory in Inputs/Outputs is one of the instruction's operands -/
+  | "final" :: nf :: args :: rest => do
+    let args ← args.toInt?
+    let (ops, _) ← listOf popTok rest
+    match compileP ops (nf == "1") with
+    | none => some "error"
+    | some c =>
+      some (joinSp (["ok", toString c.frame.frame, String.ofList (textSize c.frame.frame args), toString c.mems.length] ++
+        c.mems.map (fun p => toString p.2) ++ ["="]))
+  /- `accept-final nreg (off size)* forced nseen (loc delta width text)* textsize`: the function as it is finally PRINTED -/
+  | "accept-final" :: rest => do
+    let (regs, rest) ← listOf regTok2 rest
+    match rest with
+    | forced :: rest =>
+      let forced ← forcedTok? forced
+      let (seenT, rest) ← listOf seenTextTok rest
+      match rest with
+      | [text] =>
+        if regs.any (fun r => r.size < 0) then some "ok" else  -- outside the property's quantifier
+        match allSome (seenT.map (fun p => (parseStackAddr p.2.toList).map (fun d => (⟨p.1, d⟩ : Seen)))) with
+        | none => some "bad-operand-not-a-plain-hardware-SP-reference"
+        | some seen =>
+          if acceptFinal regs forced seen text.toList then some "ok"
+          else
+            let fin := finalRegionsFrom seen 0 regs
+            if !acceptLocalsText (fin ++ forced.toList) text.toList then
+              some s!"bad-printed-locals-not-disjoint-inside-frame text={text} printed-regions={regionsStr fin} {firstMoved regs seen}"
+            else if !seen.all (addrOKB regs) then some s!"bad-printed-operand-moved-off-its-local {firstMoved regs seen}"
+            else some s!"bad-regions text={text} regions={regionsStr regs}"
+      | _ => none
+    | _ => none
+  /- `accept-asm nreg (off size)* forced top nres (off size)* nseen (loc delta width disp)*`: the function as ASSEMBLED
+     (prologue and every RSP displacement decoded from the object file) -/
+  | "accept-asm" :: rest => do
+    let (regs, rest) ← listOf regTok2 rest
+    match rest with
+    | forced :: top :: rest =>
+      let forced ← forcedTok? forced
+      let top ← top.toInt?
+      let (reserved, rest) ← listOf regTok2 rest
+      let (seen, _) ← listOf seenTok rest
+      let all := regs ++ forced.toList
+      if acceptMeasured all seen top reserved then some "ok"
+      else if !seen.all (addrOKB all) then some s!"bad-assembled-operand-moved-off-its-local {firstMoved all seen}"
+      else if !seen.all (accessInB all) then some "bad-assembled-access-leaves-its-local"
+      else some s!"bad-assembled-locals-not-disjoint-inside-frame top={top} reserved={regionsStr reserved} regions={regionsStr all}"
+    | _ => none
+  | "accept-asm-build" :: _ => some "bad-printed-assembly-does-not-assemble"
   | "accept-cpu" :: bp :: rest => do
     let (locals, _) ← listOf cpuLocalTok rest
+    if bp == "canary" then some "bad-caller-frame-overwritten" else
     if bp != "1" then some "bad-bp-not-preserved" else
     let rec check (i : Nat) : List (Region × List (Nat × Nat)) → String
       | [] => "ok"
@@ -87,6 +195,7 @@ def handle : Handler
   | _ => none
 
 def handlers : List (String × Handler) :=
-  ["locals", "accept-locals", "accept-cpu", "accept-cpu-build", "accept-bpwrite"].map (·, handle)
+  ["locals", "accept-locals", "final", "accept-final", "accept-asm", "accept-asm-build", "accept-cpu", "accept-cpu-build",
+    "accept-bpwrite"].map (·, handle)
 
 end Avo.Drv.C16
